@@ -514,11 +514,18 @@ func (f *Frame) call1(x *ssa.Call, rec *CallRec) AV {
 		return f.builtin(x, b, args)
 	}
 	callee := common.StaticCallee()
+	if callee != nil && len(callee.FreeVars) > 0 {
+		// a function literal called directly: it still sees the variables it captured
+		if fv, ok := f.val(common.Value).(AFunc); ok && fv.fn == callee {
+			f.pendingFree = fv.free
+		}
+	}
 	if callee == nil {
 		// dynamic call through a function value
 		switch fv := f.val(common.Value).(type) {
 		case AFunc:
 			callee, args = resolveBound(fv, args)
+			f.pendingFree = fv.free
 		case AFuncSet:
 			if rec != nil {
 				rec.dyn = fv
@@ -786,6 +793,25 @@ func (f *Frame) knownExternal(x *ssa.Call, callee *ssa.Function, args []AV, key 
 		}
 		return AInt{a: affSym(f.an.u.sym(key, 0, bigNum))}, true
 	case "errors.Is":
+		// errors.Is(x, t) is x == t when no value x can hold wraps another error or customises
+		// the comparison (no Unwrap / Is method on any of its possible dynamic types)
+		if ref, ok := args[0].(ARef); ok && ref.idSym != nil && !ref.dynUnknown {
+			plain := true
+			for _, t := range ref.dynTypes {
+				ms := types.NewMethodSet(t)
+				for i := 0; i < ms.Len(); i++ {
+					if n := ms.At(i).Obj().Name(); n == "Unwrap" || n == "Is" {
+						plain = false
+					}
+				}
+				if !types.Comparable(t) {
+					plain = false
+				}
+			}
+			if id, ok := f.an.u.identityOf(args[1]); ok && plain {
+				return ABool{formAtom(atomEQ(affSym(ref.idSym), affConst(id)))}, true
+			}
+		}
 		s := f.an.u.boolSym("errors.Is(" + describeAV(args[0]) + "," + describeAV(args[1]) + ")")
 		return ABool{formAtom(atomEQ(affSym(s), affConst(1)))}, true
 	case "errors.New", "fmt.Errorf":
@@ -914,6 +940,15 @@ func (f *Frame) knownExternal(x *ssa.Call, callee *ssa.Function, args []AV, key 
 // inline analyses the callee in the caller's context and merges its return sites.
 func (f *Frame) inline(x *ssa.Call, callee *ssa.Function, args []AV, key string) AV {
 	ch := f.an.newFrame(callee, f, args)
+	// a function literal called where it was made sees the enclosing function's variables
+	if free := f.pendingFree; len(free) == len(callee.FreeVars) {
+		for i, fv := range callee.FreeVars {
+			if free[i] != nil {
+				ch.vals[fv] = free[i]
+			}
+		}
+	}
+	f.pendingFree = nil
 	f.child[x] = ch
 	ch.run(f.cur)
 	sites := ch.returns
